@@ -21,7 +21,7 @@ CHECKS = {
     "C06": {
         "engine": "E1-verus",
         "category": "proof",
-        "text": "Verus proves (unbounded, all element types and callbacks) that the permutation kernel used by Hash N-Degree Quads terminates, only ever hands permutations of its input to the callback and leaves a permutation behind; Kani shows it enumerates exactly n! distinct arrangements for n = 4, 5 (6 in the thorough tier). The composition of RDFC-1.0 (steps 2-6, the three hash procedures, the issuer, the sorted canonical N-Quads) is outside both verifiers and is compared, as a labelled bounded native stand-in, byte for byte with an independent transcription of the W3C algorithm on 69 076 small and symmetric datasets under SHA-256 and SHA-384.",
+        "text": "Verus proves (unbounded, all element types and callbacks) that the permutation kernel used by Hash N-Degree Quads terminates, only ever hands permutations of its input to the callback and leaves a permutation behind; Kani shows it enumerates exactly n! distinct arrangements for n = 4, 5 (6 in the thorough tier). The composition of RDFC-1.0 (steps 2-6, the three hash procedures, the issuer, the sorted canonical N-Quads) is outside both verifiers and is compared, as a labelled bounded native stand-in, byte for byte with an independent transcription of the W3C algorithm on 69 086 small and symmetric datasets under SHA-256 and SHA-384.",
         "design_ref": "DESIGN.md 5 (C06)",
         "note": "Trusted: Verus/z3, assumed spec of <[T]>::swap, vstd multiset lemmas. The reference transcription (replay_src/c06/src/oracle.rs) is trusted as a reading of the W3C text. NOT proved: steps 2-6 of the canonicalisation algorithm, Hash N-Degree Quads, issuer (bounded differential check only); NOT covered: canonical N-Quads escaping of literals, non-default limits, datasets beyond the enumerated shapes.",
         "technique": "deductive verification (Verus requires/ensures/decreases, loop invariant, FnMut call obligations) of mechanically extracted code",
@@ -103,7 +103,7 @@ CHECKS = {
         "category": "proof",
         "text": "Verus proves, for every term value at every nesting depth, that write_term / write_triple (real function text, extracted each run) write exactly the N-Triples term syntax fmt_term(t) - <iri>, _:label, \"esc(lex)\" with @tag or ^^<dt> iff the datatype is not xsd:string, << s p o >> - and for all byte strings that quoted_string writes exactly esc(lexical form); lemmas over esc give unesc(esc(s)) == s, one statement per line, image inside the W3C STRING_LITERAL_QUOTE body, UTF-8 preserved.",
         "design_ref": "DESIGN.md 4.5, 5 (C03)",
-        "note": "Trusted: Verus/z3, write_all contract, byte-literal axioms L1 (cross-checked by the rustc guard), rewrites R1/R3/R4 (R1/R4 guarded differentially), Rio parser conformance to the W3C grammar; term framing is bounded (Kani, 1-byte components), statement framing is a labelled bounded native stand-in (1260 quads through the real serializers and parsers).",
+        "note": "Trusted: Verus/z3, write_all contract, byte-literal axioms L1 (cross-checked by the rustc guard), rewrites R1/R3/R4 (R1/R4 guarded differentially), Rio parser conformance to the W3C grammar; term framing is bounded (Kani, 1-byte components), statement framing is a labelled bounded native stand-in (1620 quads through the real serializers and parsers).",
         "technique": "deductive verification (Verus pre/postconditions, loop invariants, lemmas) of mechanically extracted code",
     },
 }
